@@ -120,6 +120,28 @@ def handle (toks : List String) : Option String :=
     if kek.length ≠ 16 ∧ kek.length ≠ 32 then pure "err" else
     let D ← aesD? kek
     pure (okR (Kwp.unwrap D (← bytesOfTok? w)))
+  | ["kwpraw", kek, s] => do
+    -- the RFC 3394 / RFC 5649 wrapping function W applied to an ARBITRARY block string A‖P1…Pn (no AIV /
+    -- length / padding preparation): lets the harness build wrappings of malformed plaintexts. n = 1 is the
+    -- single-block ECB case of RFC 5649 §4.1.
+    let kek ← bytesOfTok? kek
+    if kek.length ≠ 16 ∧ kek.length ≠ 32 then pure "err" else
+    let E ← aesE? kek
+    let s ← bytesOfTok? s
+    if s.length % 8 ≠ 0 ∨ s.length < 16 then pure "err" else
+    if s.length = 16 then pure s!"ok {tokOfBytes (E s)}" else
+    let st := Kwp.W E { A := s.take 8, R := Kwp.semiblocks (s.drop 8) }
+    pure s!"ok {tokOfBytes (st.A ++ st.R.flatten)}"
+  | ["sivctr", k2, iv, data] => do
+    -- the CTR layer of AES-SIV alone: bits 31 and 63 of the 16-byte IV cleared, then the big-endian
+    -- 128-bit counter key stream (Model/Siv.clearBits, Model/Ctr.xorBE) — reaches counter carries that
+    -- S2V outputs hit only with negligible probability
+    let k2 ← bytesOfTok? k2
+    if k2.length ≠ 32 then pure "err" else
+    let E2 ← aesE? k2
+    let iv ← bytesOfTok? iv
+    if iv.length ≠ 16 then pure "err" else
+    pure s!"ok {tokOfBytes (Ctr.xorBE E2 (Siv.clearBits iv) (← bytesOfTok? data))}"
   | _ => none
 
 end Driver.Sym
